@@ -53,6 +53,7 @@ GptAcceptable(t) == t.name \notin {"nonbmp19", "ascii37"}
 P_C02_NoPanic   (ev) == ev.res # "panic"
 P_C02_RoundTrip (ev) == ev.res = "ok" => /\ ev.rd.res = "ok" /\ ev.rd.kind = ev.kind
                                          /\ ev.rd.guid = ev.norm.guid /\ ev.rd.parts = ev.norm.parts
+                                         /\ ev.rd.pmbr = ev.norm.pmbr      \* GPT: the protective-MBR flag reads back as written
 P_C02_Ranges    (ev) == ev.res = "ok" => ev.ranges = ev.xranges
 P_C02_ValidDisk (ev) == ev.res = "ok" => /\ ev.raw.bad = <<>>
                                          /\ ev.raw.guid = ev.norm.guid /\ ev.raw.parts = ev.norm.parts
